@@ -163,6 +163,15 @@ CLAIMED = {
         "design_ref": "DESIGN.md §8 C20",
         "technique": "Lean 4 theorems (name confinement, oracle-parametrised output model, interleaving invariant with crash points) + T0 protocol-shape obligation + name/collapse correspondence + subprocess search over stdin x file states + forced schedules and concurrent runs",
     },
+    "C16": {
+        "text": "Proof (Lean 4), classifier side, for every input text: a text with a second statement after a separator outside quotes and comments is never read-only (second_statement_detected, multi_never_ro, ro_single); read-only implies the main statement - after any WITH prefix, "
+        "as located by the modelled _skip_cte - begins with SELECT without INTO before FROM or with a read-only keyword (ro_shape); a write keyword first, an unknown first token (dot-commands included) or SELECT INTO is never read-only; a sqlite3 command line is a read-only query "
+        "only if every SQL argument and -cmd argument is read-only on its own (args_separate, write_arg_asks, allowed_cases). The regular expressions are modelled by what CPython's backtracking matcher returns (greedy quote pairs with end-of-text backtracking, non-greedy block comments); "
+        "str.upper is modelled for everything that can become an ASCII keyword (T0 table). T0 obligations: keyword sets disjoint, the six alternatives of the quoting pattern. NOT proved (engine semantics, exercised by T2): that such a single statement leaves an SQLite database unchanged - "
+        "every generated text classified read-only is executed by the real engine and the state diffed. Shell-only side-effect functions: finding F16b.",
+        "design_ref": "DESIGN.md §8 C16",
+        "technique": "Lean 4 theorems over a hand model of the scanner (regex semantics modelled) + T0 keyword/pattern obligations + T1 correspondence (strip, multi, classify, sqlite3 handler) + real SQLite engine state diff (T2)",
+    },
 }
 
 PENDING_REASON = "check not built yet in this round (DESIGN.md §10 build order); no technique other than Lean proof + correspondence is substituted"
